@@ -82,7 +82,11 @@ func c16String(tp *tape.Tape, allowNewline bool) (lit string, special bool, newl
 			b.WriteByte('\n')
 			newlines++
 			// interior lines that look like nothing (blank, spaces only) or like a comment
-			switch tp.Draw(6) {
+			switch tp.Draw(7) {
+			case 6:
+				b.WriteString("#!/bin/sh -e\n")
+				newlines++
+				special = true
 			case 0:
 				b.WriteByte('\n')
 				newlines++
